@@ -13,7 +13,8 @@ RULE = ('Grid: ping_interval {25, 1, 0.5, 1.5, 2.75, (25,5), (1.5,0.25), (10,0)}
         'transports {default, polling, websocket, both} x cookie {none, name, dict with string / '
         'True / False / callable attributes} x connect-handler outcome {None, True, False, 0, "", '
         'text, dict, list, raise} x open kind {polling, websocket} x JSONP {off, on} x server '
-        '{threaded, asyncio}; each cell opens a session on a fresh server. Oracle: first packet is '
+        '{threaded, asyncio}; each cell opens a session on a fresh server whose connect handler '
+        'sends 0, 1 or 2 messages to the new session (number derived from the cell). Oracle: first packet is '
         'OPEN with the handler sid, pingInterval == (interval+grace)*1000, pingTimeout == '
         'timeout*1000, maxPayload as configured; websocket advertised only if an upgrade would be '
         'accepted, and when advertised a conforming upgrade attempt completes; Set-Cookie iff '
@@ -81,9 +82,18 @@ def parse_cookie(v):
     return first, attrs
 
 
-def check_cell(c, ctx=None):
+def greetings_for(c):
+    """How many messages the connect handler sends to the session it is being asked about
+    (derived from the cell, so that the grid does not grow): 0, 1 or 2."""
+    return int(h64(['greet', repr(list(c))]), 16) % 3
+
+
+def check_cell(c, ctx=None, greets=None):
     impl, interval, timeout, buf, upg, transports, cookie, outcome, kind, jsonp = c
-    rep = {'cell': [impl, interval, timeout, buf, upg, transports, cookie, outcome, kind, jsonp]}
+    if greets is None:
+        greets = greetings_for(c)
+    rep = {'cell': [impl, interval, timeout, buf, upg, transports, cookie, outcome, kind, jsonp],
+           'greets': greets}
     ck, ck_expect = cookie_cfg(cookie)
     cfg = {'ping_interval': tuple(interval) if isinstance(interval, list) else interval,
            'ping_timeout': timeout, 'max_http_buffer_size': buf, 'allow_upgrades': upg,
@@ -95,6 +105,7 @@ def check_cell(c, ctx=None):
             w.app_log.outcome_by_ord[0] = ('raise',)
         elif outcome != 'none':
             w.app_log.outcome_by_ord[0] = ('ret', OUTCOME_VALUE[outcome])
+        w.app_log.connect_sends = ['G%d~' % (k + 1) for k in range(greets)]
         hdrs = [('X-Verif-Open', '0'), ('Host', 'localhost')]
         q = 'transport=%s&EIO=4' % kind + ('' if jsonp is None else '&j=%d' % jsonp)
         if kind == 'polling':
@@ -111,11 +122,13 @@ def check_cell(c, ctx=None):
         if not accept:
             check_rejected(w, impl, r, kind, outcome, hsid, rep, trig)
         else:
-            check_accepted(w, impl, r, c, hsid, ck_expect, rep, trig)
+            check_accepted(w, impl, r, c, hsid, ck_expect, rep, trig + '|greets=%d' % greets
+                           if greets else trig)
         if ctx:
             nt = isinstance(interval, list) or interval != int(interval) or transports is not None \
                 or cookie.startswith('dict') or not accept
-            ctx.case(rep, nt, [impl, 'outcome-' + outcome, 'kind-' + kind, 'cookie-' + cookie])
+            ctx.case(rep, nt, [impl, 'outcome-' + outcome, 'kind-' + kind, 'cookie-' + cookie,
+                               'handler-sends-%d' % greets])
     finally:
         w.teardown()
 
@@ -186,6 +199,17 @@ def check_accepted(w, impl, r, c, hsid, ck_expect, rep, trig):
         first = r.frames()[0]
     if not isinstance(first, str) or first[:1] != '0':
         raise V(impl, 'first-packet-not-open', trig, 'first packet %r' % (first,), rep)
+    greets = rep.get('greets', 0)
+    if greets:
+        rest = text.split(rm.SEP)[1:] if kind == 'polling' else r.frames()[1:]
+        want = ['4G%d~' % (k + 1) for k in range(greets)]
+        got = [p for p in rest if isinstance(p, str) and p[:1] == '4']
+        if kind == 'websocket' and got != want:
+            raise V(impl, 'handler-sends-lost-or-reordered', trig,
+                    'the connect handler sent %r, the frames after OPEN are %r' % (want, rest), rep)
+        if kind == 'polling' and got != want[:len(got)]:
+            raise V(impl, 'handler-sends-lost-or-reordered', trig,
+                    'the connect handler sent %r, the open answer continues %r' % (want, rest), rep)
     try:
         info = json.loads(first[1:])
     except ValueError:
@@ -278,4 +302,4 @@ def run_shard(ctx):
 
 def replay(case, ctx):
     c = case['cell']
-    check_cell(tuple(c))
+    check_cell(tuple(c), greets=case.get('greets', 0))
